@@ -68,10 +68,13 @@ def main(argv):
                 if rc == -999:
                     exhaustive = False
                     fam["timeout"] = True
+                    c.notes.append("format %s: a shard hit the time limit; inputs of that shard are not covered" % fmt)
                     continue
                 c.harness_error("fuzzall driver failed: %s rc=%s %s" % (" ".join(cmd), rc, err[-1500:]))
             for k in ("inputs", "accepted", "rejected", "crashes"):
                 fam[k] += val[k]
+            if val.get("stopped_early"):
+                exhaustive = False
             if val["crashes"]:
                 c.violation("C13: %s input %r crashes / hangs ninja (worker wait status %s); %d such inputs in this shard"
                             % (fmt, bytes.fromhex(val["first_bad"]), val.get("first_bad_status"), val["crashes"]),
